@@ -30,7 +30,7 @@ FLOORS = {'FRAME': 4, 'ALLOC': 2, 'SKIP': 1, 'WINDOW': 2, 'VELO': 1, 'DEC': 8}
 
 
 def E(t):
-  return ast.parse(t, mode='eval').body
+  return U.E(t)
 
 
 def has(test, text, env=None, polarity=True):
@@ -96,7 +96,7 @@ def encoder(ctx):
   ctx.ob('FRAME/at-least-one', ff, last, ok, 'end frame = max(start + 1, end), applied last' if ok else 'the final end frame is not max(start_frame + 1, end_frame): a note may get no frame')
   # occupancy adjustments only under min_frame_occupancy_for_label > 0
   adj = [s for s in ff.node.body if isinstance(s, ast.If)]
-  ok = all('min_frame_occupancy_for_label > 0.0' in norm_text(s.test) for s in adj)
+  ok = all('0.0 < min_frame_occupancy_for_label' in norm_text(s.test) for s in adj)
   ctx.ob('FRAME/occupancy-optional', ff, adj[0] if adj else ff.node, ok, 'frame adjustments apply only when min_frame_occupancy_for_label > 0' if ok else 'the frame indices are adjusted even with the default occupancy 0')
   # allocations
   allocs = [c for c in U.calls_in(fi.node) if (dotted(c.func) or '') in ('np.zeros', 'numpy.zeros') and c.args and isinstance(c.args[0], ast.Tuple)]
